@@ -116,10 +116,13 @@ class G:
         return spec
 
     def cdtype(self):
-        return self.choice(['complex128', 'complex128', 'complex128', 'complex64'])
+        # '>c16': non-native byte order (data read from a big-endian file)
+        return self.choice(['complex128', 'complex128', 'complex128', 'complex64']
+                           + (['>c16'] if self.coin(0.1) else []))
 
     def rdtype(self):
-        return self.choice(['float64', 'float64', 'float64', 'float32'])
+        return self.choice(['float64', 'float64', 'float64', 'float32']
+                           + (['>f8'] if self.coin(0.1) else []))
 
 
 def _lead(F):
@@ -1463,6 +1466,42 @@ class _BinaryGmm:
         model = BinaryGMMTrainer().fit(x, a['K'], saliency=sal)
         spec = dict(a['x'], seed=a['seed']) if a['predict_other'] else a['x']
         return [model.kmeans.cluster_centers_, model.predict(ctx.arr(spec))]
+
+
+@entry('binarygmm.fit', draws=True, weight=1.0, group='mixture',
+       returns_model='binarygmm')
+class _BinaryGmmFit:
+    """The fitted BinaryGMM model goes to the model pool (it wraps a
+    scikit-learn estimator object)."""
+    @staticmethod
+    def gen(g):
+        K, D = g.K(), g.D()
+        N = g.N(4 * K, 30)
+        return {'x': g.arr('rclusters', [N, D], K=K, dtype='float64'), 'K': K}
+
+    @staticmethod
+    def run(ctx, a):
+        from pb_bss.distribution import BinaryGMMTrainer
+        return BinaryGMMTrainer().fit(ctx.arr(a['x']), a['K'])
+
+
+@entry('binarygmm.predict', weight=1.5, group='mixture')
+class _BinaryGmmPredict:
+    @staticmethod
+    def gen(g):
+        ref = g.pick_model(['binarygmm'])
+        if ref is None:
+            return None
+        return {'model': ref, 'seed': g.seed(), 'other_data': g.coin(0.5),
+                'dtype': g.choice(['float64', 'float64', 'float32'])}
+
+    @staticmethod
+    def run(ctx, a):
+        m = ctx.model(a['model'])
+        spec = dict(m.origin['x'], dtype=a['dtype'])
+        if a['other_data']:
+            spec['seed'] = a['seed']
+        return m.value.predict(ctx.arr(spec))
 
 
 def copy_cacgmm(m):
